@@ -10,7 +10,7 @@ import numpy as np
 from mc import ordertypes as ot
 from mc import refs
 from mc import rngtree
-from mc.harness import HarnessError, REPO
+from mc.harness import HarnessError, REPO, guarded
 
 ID = "C11"
 TITLE = "Bootstrap samples are well-formed resamples of their source"
@@ -70,6 +70,8 @@ def work(tier, seed):
         items.append({"kind": "two_samples", "hp": hp_, "hn": hn_})
     for part in range(8):
         items.append({"kind": "proportion_sizes", "part": part, "parts": 8})
+    for sizes in ([40000, 50], [300, 66000], [1000, 1000]) + (([70000, 70000],) if tier == "thorough" else ()):
+        items.append({"kind": "large_real", "sizes": list(sizes)})
     for hp in b["switch_sizes"]:
         for hn in b["switch_sizes"]:
             for smoothing in (False, True):
@@ -238,6 +240,8 @@ def run(item, ctx, tier, seed):
         return _run_two_samples(item, ctx)
     if item["kind"] == "proportion_sizes":
         return _run_proportion_sizes(item, ctx, tier)
+    if item["kind"] == "large_real":
+        return _run_large_real(item, ctx, seed)
 
     blocks = [tuple(x) for x in item["blocks"]]
     ep, en = item["easy"]
@@ -551,7 +555,9 @@ def _run_proportion_sizes(item, ctx, tier):
     ratios = [r / 100.0 for r in range(1, 100)] if tier == "thorough" else [0.03, 0.12, 0.15, 0.25, 0.3, 0.34, 0.5, 0.6, 0.7, 0.75,
                                                                            0.9, 0.97, 0.99]
     sizes = list(range(1, 201)) if tier == "thorough" else list(range(1, 41)) + [50, 100, 200]
-    combos = [(r, n) for r in ratios for n in sizes][item["part"]::item["parts"]]
+    ratios_big = [1 / 16, 1 / 32, 0.02, 0.3]
+    sizes_big = [1024, 2048, 4097] + ([20000, 70000] if tier == "thorough" else [])
+    combos = ([(r, n) for r in ratios for n in sizes] + [(r, n) for r in ratios_big for n in sizes_big])[item["part"]::item["parts"]]
     for ratio, n in combos:
         pos = [float(i) for i in range(n)]
         neg = [float(i) + 0.5 for i in range(max(1, n // 2))]
@@ -568,4 +574,68 @@ def _run_proportion_sizes(item, ctx, tier):
             ctx.nontrivial()
         _wellformed(ctx, case, src, smp, pos, neg, ep, en, ("pos", "pos"), "proportion", None, False, ratio)
     ctx.sample({"kind": "proportion_sizes", "ratios": len(ratios), "sizes": len(sizes)})
+    return None
+
+
+def _run_large_real(item, ctx, seed):
+    """Sources with tens of thousands of scores under the real (seeded) RNG: leaf-level clauses only."""
+    import bisect
+    from score_analysis import BootstrapConfig, Scores
+
+    hp, hn = item["sizes"]
+    pos = [0.5 * i + 0.25 for i in range(hp)]
+    neg = [0.5 * i for i in range(hn)]
+    ep, en = 3, 0
+    src = Scores(np.array(pos[::-1]), np.array(neg[::-1]), nb_easy_pos=ep, nb_easy_neg=en)
+    for method, strat, ratio in (("replacement", None, None), ("replacement", "by_label", None), ("dynamic", None, None),
+                                 ("single_pass", "by_label", None), ("proportion", None, 0.03)):
+        for sd in (seed, seed + 1):
+            case = {"kind": "large_real", "hard": [hp, hn], "easy": [ep, en], "method": method, "stratified": strat, "ratio": ratio,
+                    "np_random_seed": sd}
+            st = np.random.get_state()
+            np.random.seed(sd)
+            try:
+                ok, smp = guarded(ctx, "bootstrap_sample", case, lambda: src.bootstrap_sample(
+                    BootstrapConfig(sampling_method=method, stratified_sampling=strat, ratio=ratio)))
+            finally:
+                np.random.set_state(st)
+            ctx.state()
+            ctx.tick()
+            ctx.nontrivial()
+            if not ok:
+                continue
+            sp, sn = np.asarray(smp.pos, dtype=float), np.asarray(smp.neg, dtype=float)
+            if np.any(np.diff(sp) < 0) or np.any(np.diff(sn) < 0):
+                ctx.fail("sample-internally-ordered", case, observed="unsorted", expected="ascending arrays")
+                continue
+            if not (np.all(np.isin(sp, np.array(pos))) and np.all(np.isin(sn, np.array(neg)))):
+                ctx.fail("scores-from-same-class", case, observed="foreign score", expected="subset of the source")
+            # metrics equal direct counting on the sample's own (sorted) arrays
+            lp, ln = sp.tolist(), sn.tolist()
+            T = [pos[len(pos) // 3], neg[(2 * len(neg)) // 3] + 0.1, pos[-1], neg[0] - 1.0]
+            got = smp.cm(np.array(T)).matrix.tolist()
+            for t, g in zip(T, got):
+                exp = refs.ref_cm_sorted(lp, ln, t, "pos", "pos", int(smp.nb_easy_pos), int(smp.nb_easy_neg))
+                if g != exp:
+                    ctx.fail("sample-metrics-equal-direct-counting", dict(case, threshold=t), observed=g, expected=exp)
+                    break
+            n_src, n_smp = hp + hn + ep + en, len(lp) + len(ln) + int(smp.nb_easy_pos) + int(smp.nb_easy_neg)
+            eff = method
+            if method == "dynamic":
+                eff = "single_pass" if min(hp, hn) > 100 else "replacement"
+            if eff == "replacement" and n_smp != n_src:
+                ctx.fail("replacement-preserves-total-count", case, observed=n_smp, expected=n_src)
+            if eff == "replacement" and strat == "by_label" and [len(lp), len(ln)] != [hp, hn]:
+                ctx.fail("by-label-preserves-strata", case, observed=[len(lp), len(ln)], expected=[hp, hn])
+            if method == "proportion":
+                want = [max(int(ratio * hp), 1), max(int(ratio * hn), 1)]
+                if [len(lp), len(ln)] != want or len(set(lp)) != len(lp) or len(set(ln)) != len(ln):
+                    ctx.fail("proportion-sizes", case, observed=[len(lp), len(ln)], expected=want)
+            if eff in ("replacement", "single_pass") and hp >= 1000:
+                # every tenth of the source is represented (a bootstrap sample of >= 1000 scores misses a whole decile
+                # with probability < 1e-40)
+                dec = {int(bisect.bisect_left(pos, v) * 10 // hp) for v in lp}
+                if len(dec) < 10:
+                    ctx.fail("every-source-score-reachable", case, observed=sorted(dec), expected="all ten deciles of the positives present")
+    ctx.sample({"kind": "large_real", "hard": [hp, hn]})
     return None
